@@ -60,6 +60,168 @@ theorem spinz_eigenvalue (nOrbs : Nat) (utd : Bool) (x : Bits) :
   intro i _
   simp
 
+/-! ## commutation with every number- / spin-conserving operator
+
+A diagonal operator with weight `w` (`(D ψ)(x) = w(x) ψ(x)`) whose weight is additive over occupied modes with
+increments `γ p` satisfies the shift relations `D a†_p = a†_p (D + γ_p)` and `D a_q = a_q (D − γ_q)`; hence it
+commutes with every ladder string whose increments cancel — N with every number-conserving term, S_z with every
+term that conserves the spin projection — and, by linearity, with every Hamiltonian made of such terms. -/
+section commute
+
+/-- w(x) = w(x with mode p emptied) + γ p whenever p is occupied in x -/
+def Additive (γ : Nat → R) (w : Bits → R) : Prop := ∀ (x : Bits) (p : Nat), x p = true → w x = w (x.set p false) + γ p
+
+def diagOp (w : Bits → R) (ψ : State R) : State R := fun x => w x * ψ x
+
+theorem additive_shift (γ : Nat → R) (w : Bits → R) (h : Additive γ w) (c : R) : Additive γ (fun x => w x + c) := by
+  intro x p hx
+  show w x + c = w (x.set p false) + c + γ p
+  rw [h x p hx]; ring
+
+theorem additive_set_true (γ : Nat → R) (w : Bits → R) (h : Additive γ w) (x : Bits) (p : Nat) (hx : x p = false) :
+    w (x.set p true) = w x + γ p := by
+  have := h (x.set p true) p (by simp)
+  rw [this, Bits.set_set]
+  have : x.set p false = x := by rw [← hx]; exact Bits.set_self x p
+  rw [this]
+
+theorem shift_create (γ : Nat → R) (w : Bits → R) (h : Additive γ w) (p : Nat) (ψ : State R) :
+    diagOp w (create p ψ) = create p (diagOp (fun x => w x + γ p) ψ) := by
+  funext x
+  unfold diagOp create
+  by_cases hx : x p
+  · simp only [hx, if_true]
+    rw [h x p hx]; ring
+  · simp [hx]
+
+theorem shift_annihilate (γ : Nat → R) (w : Bits → R) (h : Additive γ w) (q : Nat) (ψ : State R) :
+    diagOp w (annihilate q ψ) = annihilate q (diagOp (fun x => w x - γ q) ψ) := by
+  funext x
+  unfold diagOp annihilate
+  by_cases hx : x q
+  · simp [hx]
+  · have hx' : x q = false := by simpa using hx
+    simp only [hx', Bool.false_eq_true, if_false]
+    rw [additive_set_true γ w h x q hx']; ring
+
+/-- a ladder string applied to amplitudes; the head of the list is the outermost (leftmost) operator -/
+def applyString : List (Nat × Bool) → State R → State R
+  | [], ψ => ψ
+  | (p, true) :: rest, ψ => create p (applyString rest ψ)
+  | (p, false) :: rest, ψ => annihilate p (applyString rest ψ)
+
+/-- total increment of a ladder string: +γ for a creation, −γ for an annihilation -/
+def increment (γ : Nat → R) : List (Nat × Bool) → R
+  | [] => 0
+  | (p, true) :: rest => γ p + increment γ rest
+  | (p, false) :: rest => -γ p + increment γ rest
+
+theorem shift_string (γ : Nat → R) (w : Bits → R) (h : Additive γ w) (s : List (Nat × Bool)) (ψ : State R) :
+    diagOp w (applyString s ψ) = applyString s (diagOp (fun x => w x + increment γ s) ψ) := by
+  induction s generalizing w with
+  | nil => simp [applyString, increment, diagOp]
+  | cons pd rest ih =>
+    obtain ⟨p, d⟩ := pd
+    cases d
+    · simp only [applyString, increment]
+      rw [shift_annihilate γ w h, ih (fun x => w x - γ p) (by simpa [sub_eq_add_neg] using additive_shift γ w h (-γ p))]
+      have e : (fun x => w x - γ p + increment γ rest) = fun x => w x + (-γ p + increment γ rest) := by funext x; ring
+      rw [e]
+    · simp only [applyString, increment]
+      rw [shift_create γ w h, ih (fun x => w x + γ p) (additive_shift γ w h (γ p))]
+      have e : (fun x => w x + γ p + increment γ rest) = fun x => w x + (γ p + increment γ rest) := by funext x; ring
+      rw [e]
+
+/-- **a conserved quantity commutes with every term that conserves it**: increments cancel ⇒ `D s = s D` -/
+theorem commute_string (γ : Nat → R) (w : Bits → R) (h : Additive γ w) (s : List (Nat × Bool)) (hs : increment γ s = 0)
+    (ψ : State R) : diagOp w (applyString s ψ) = applyString s (diagOp w ψ) := by
+  rw [shift_string γ w h s ψ, hs]
+  have e : (fun x => w x + 0) = w := by funext x; ring
+  rw [e]
+
+/-- an operator Σ c_s · s acting on amplitudes -/
+def applyTerms (ts : List (List (Nat × Bool) × R)) (ψ : State R) : State R :=
+  fun x => (ts.map (fun t => t.2 * applyString t.1 ψ x)).sum
+
+/-- **commutation with a whole Hamiltonian**: if every term conserves the quantity, `D H ψ = H D ψ` -/
+theorem commute_terms (γ : Nat → R) (w : Bits → R) (h : Additive γ w) (ts : List (List (Nat × Bool) × R))
+    (hts : ∀ t ∈ ts, increment γ t.1 = 0) (ψ : State R) :
+    diagOp w (applyTerms ts ψ) = applyTerms ts (diagOp w ψ) := by
+  funext x
+  unfold applyTerms
+  induction ts with
+  | nil => simp [diagOp]
+  | cons t rest ih =>
+    have ht := commute_string γ w h t.1 (hts t List.mem_cons_self) ψ
+    have hx := congrFun ht x
+    simp only [diagOp] at hx ih ⊢
+    simp only [List.map_cons, List.sum_cons]
+    rw [mul_add, ih (fun t' ht' => hts t' (List.mem_cons_of_mem _ ht')), ← hx]
+    ring
+
+/-- the weight of Σ c_p a†_p a_p and its increments -/
+def weightR (coef : Rat → R) (terms : List (Nat × Rat)) (x : Bits) : R :=
+  (terms.map (fun (pc : Nat × Rat) => if x pc.1 then coef pc.2 else 0)).sum
+
+def gammaR (coef : Rat → R) (terms : List (Nat × Rat)) (p : Nat) : R :=
+  (terms.map (fun (pc : Nat × Rat) => if pc.1 = p then coef pc.2 else 0)).sum
+
+theorem weightR_additive (coef : Rat → R) (terms : List (Nat × Rat)) : Additive (gammaR coef terms) (weightR coef terms) := by
+  intro x p hx
+  unfold weightR gammaR
+  induction terms with
+  | nil => simp
+  | cons pc rest ih =>
+    simp only [List.map_cons, List.sum_cons]
+    rw [ih]
+    by_cases hp : pc.1 = p
+    · subst hp; simp [hx]; ring
+    · have : (x.set p false) pc.1 = x pc.1 := Bits.set_other _ _ _ _ hp
+      simp only [this, hp, if_false]; ring
+
+/-- the symmetry operators of the library are such diagonal operators -/
+theorem applyDiag_is_diagOp (coef : Rat → R) (terms : List (Nat × Rat)) (ψ : State R) :
+    applyDiag coef terms ψ = diagOp (weightR coef terms) ψ := by
+  funext x; rw [applyDiag_eigen]; rfl
+
+/-- **N and S_z commute with every Hamiltonian whose terms conserve them** (any coefficients, any number of
+    terms, every register size): stated for an arbitrary Σ c_p a†_p a_p, instantiated by `numberList` / `spinzList` -/
+theorem symmetry_commutes (coef : Rat → R) (terms : List (Nat × Rat)) (ts : List (List (Nat × Bool) × R))
+    (hts : ∀ t ∈ ts, increment (gammaR coef terms) t.1 = 0) (ψ : State R) :
+    applyDiag coef terms (applyTerms ts ψ) = applyTerms ts (applyDiag coef terms ψ) := by
+  rw [applyDiag_is_diagOp, applyDiag_is_diagOp]
+  exact commute_terms (gammaR coef terms) (weightR coef terms) (weightR_additive coef terms) ts hts ψ
+
+/-- increments of the number operator (alternating ordering): 1 on each of the 2·n_orbs spin-orbitals -/
+theorem gamma_number_alternating (coef : Rat → R) (nOrbs p : Nat) :
+    gammaR coef (numberList nOrbs false) p = if p < 2 * nOrbs then coef 1 else 0 := by
+  have hl : numberList nOrbs false = (List.range nOrbs).flatMap (fun i => [(2 * i, (1 : Rat)), (2 * i + 1, 1)]) := by
+    simp [numberList, spinOrbitals]
+  rw [hl]
+  unfold gammaR
+  induction nOrbs with
+  | zero => simp
+  | succ n ih =>
+    rw [List.range_succ, List.flatMap_append, List.map_append, List.sum_append, ih (by simp [numberList, spinOrbitals])]
+    simp only [List.flatMap_cons, List.flatMap_nil, List.append_nil, List.map_cons, List.map_nil, List.sum_cons,
+      List.sum_nil, add_zero]
+    by_cases h1 : p < 2 * n
+    · have a : ¬ (2 * n = p) := by omega
+      have b : ¬ (2 * n + 1 = p) := by omega
+      have c : p < 2 * (n + 1) := by omega
+      simp [h1, a, b, c]
+    · by_cases h2 : 2 * n = p
+      · have b : ¬ (2 * n + 1 = p) := by omega
+        have c : p < 2 * (n + 1) := by omega
+        simp [h1, h2, b, c]
+      · by_cases h3 : 2 * n + 1 = p
+        · have c : p < 2 * (n + 1) := by omega
+          simp [h1, h2, h3, c]
+        · have c : ¬ p < 2 * (n + 1) := by omega
+          simp [h1, h2, h3, c]
+
+end commute
+
 /-! ## penalties -/
 
 /-- μ(O − t)² on an eigenvector with eigenvalue a: non-negative for μ > 0, and zero exactly on the target -/
